@@ -133,6 +133,23 @@ def runStep (s : RunSt) (line : String) : RunSt × String :=
     match parseRec ws with
     | some r => ({ s with recs := r :: s.recs }, "ok")
     | none => (s, "bad-op")
+  | "runmem" :: ws =>
+    match (kv ws "cuts").bind parseList with
+    | some cuts =>
+      match buildTree s.thr s.known with
+      | none => (s, "err:build")
+      | some t0 =>
+        let segs := segsOf s.recs.reverse cuts [] [] []
+        let r := segs.foldl (fun (st : Tree × Agg) seg =>
+          match seg with
+          | Seg.batch rs => stepT st.1 st.2 rs
+          | _ => st) (t0, ({} : Agg))
+        let a := r.2
+        let e := sortS (a.endpoints.map fun x => s!"ep {pctEnc (dumpKey x.1)} {fmtAgg x.2}")
+        let c := sortS (a.consumers.map fun x => s!"ce {pctEnc x.1.1} {pctEnc (dumpKey x.1.2)} {fmtAgg x.2}")
+        let i := sortS (a.interceptors.map fun x => s!"it {pctEnc x.1.1} {pctEnc x.1.2} {x.2}")
+        (s, " ".intercalate (["mem"] ++ e ++ c ++ i))
+    | none => (s, "bad-op")
   | "run" :: ws =>
     match (kv ws "cuts").bind parseList, (kv ws "restarts").bind parseList,
           ((kv ws "faildumps").getD "-" |> parseList), ((kv ws "reloads").getD "-" |> parseList) with
@@ -166,6 +183,7 @@ structure JudgeSt where
   known : List String := []
   recs : List Rec := []       -- reversed
   runs : List RunObs := []    -- reversed
+  mems : List MemObs := []
   bad : Option String := none
 
 def parseStatus (s : String) : Option (List (Nat × Nat)) :=
@@ -207,6 +225,14 @@ def judgeStep (s : JudgeSt) (op out : String) : JudgeSt :=
     match parseRec ws with
     | some r => { s with recs := r :: s.recs }
     | none => { s with bad := some "unparsable-rec" }
+  | "runmem" :: _ =>
+    if out == "err:build" then s
+    else match words out with
+      | "mem" :: rest =>
+        match parseEntries { full := true, fails := 0, eps := [], ces := [], its := [], avgOk := true } rest with
+        | some o => { s with mems := { eps := o.eps, ces := o.ces, its := o.its } :: s.mems }
+        | none => { s with bad := some ("unparsable-output:" ++ (pctEnc out).take 120) }
+      | _ => { s with bad := some ("unparsable-output:" ++ (pctEnc out).take 120) }
   | "run" :: _ =>
     if out == "err:build" then s   -- the declared endpoints were refused by BuildTree: nothing ran
     else if out == "nondet" then
@@ -222,7 +248,9 @@ def judgeFinish (s : JudgeSt) : String :=
   | some b => s!"fail - {b}"
   | none =>
     let c : CaseObs := { thr := s.thr, known := s.known, recs := s.recs.reverse, runs := s.runs.reverse }
-    if holds c then "ok"
+    if !(s.mems.all fun m => memConserves c.recs m) then
+      "fail - in-memory-aggregation-does-not-account-for-the-records-exactly (count / status / min / max timestamps)"
+    else if holds c then "ok"
     else
       let fid := (finding c).getD "-"
       let why :=
